@@ -46,7 +46,9 @@ Override(base, ds) ==
 Singles == UNION {Override(Baseline, {d}) : d \in DimNames}
 Pairs(F) == UNION {UNION {Override(Baseline, {d, e}) : e \in F \ {d}} : d \in F}
 Cases == {Baseline} \cup (IF K >= 1 THEN Singles ELSE {}) \cup Pairs(Focus)
-Modes == {"options", "policy"}
+Modes == {"options", "policy", "policySparse"}
+\* policySparse: a policy message whose sub-messages (header policy, TD quote body policy) are absent when nothing in them is configured
+IsPolicy(m) == m \in {"policy", "policySparse"}
 
 (* ------------------------- declarative reading, per dimension ------------------------ *)
 \* "pass": the expectation holds or nothing is configured;  "miss": configured and not met;
@@ -94,7 +96,7 @@ ExplicitEmpty(c) == \E d \in ByteFields \cup {"minTee"} : c[d] = "empty"
 Checks == <<"convert", "exactBytes", "rtmrs", "anyMrTd", "minTee", "minQe", "minPce", "xfam", "tdAttributes">>
 
 CheckResult(k, c, mode) ==
-  CASE k = "convert" -> IF mode = "policy" /\ (Malformed(c) \/ ExplicitEmpty(c)) THEN "refuse" ELSE "ok"
+  CASE k = "convert" -> IF IsPolicy(mode) /\ (Malformed(c) \/ ExplicitEmpty(c)) THEN "refuse" ELSE "ok"
     [] k = "exactBytes" -> IF \A f \in ByteFields : Reading(f, c[f]) = "pass" THEN "ok" ELSE "err"
     [] k = "rtmrs" -> IF Reading("rtmrs", c.rtmrs) = "pass" THEN "ok" ELSE "err"
     [] k = "anyMrTd" -> IF Reading("anyMrTd", c.anyMrTd) \in {"pass", "malformedButMet"} THEN "ok" ELSE "err"   \* first matching entry wins
@@ -138,7 +140,7 @@ TypeOK == result \in {"none", "ok", "reject", "refused"}
 \* C08
 ExactlyConforming == (Done /\ result # "refused") => (Literal(c) = "either" \/ result = Literal(c))
 \* C14
-RefusesMalformed == (Done /\ mode = "policy") => /\ (Malformed(c) => result = "refused")
+RefusesMalformed == (Done /\ IsPolicy(mode)) => /\ (Malformed(c) => result = "refused")
                                                   /\ (result = "refused" => Malformed(c) \/ ExplicitEmpty(c))
-MeansTheSame == (Done /\ mode = "policy" /\ result # "refused") => result = Literal(c)
+MeansTheSame == (Done /\ IsPolicy(mode) /\ result # "refused") => result = Literal(c)
 =================================================================================
